@@ -17,7 +17,10 @@ N_QUICK, N_THOROUGH = 60, 900
 
 
 def gen_case(rng, idx):
-    prog, feats, losses, tasks, shared = ajlib.gen_mtl(rng)
+    # every third program has a head in which two same-shape parameters (often shared with a later task)
+    # and the feature enter additively: autograd then hands ONE gradient object to the parameters and to
+    # the feature cotangent, which whoever stores it without cloning corrupts by a later in-place +=
+    prog, feats, losses, tasks, shared = ajlib.gen_mtl(rng, alias=True if idx % 3 == 1 else None)
     t = len(losses)
     leaves = [x for x in range(prog.n()) if prog.is_leaf[x] and prog.req[x]]
     calls = []
